@@ -20,10 +20,10 @@ def H : Bytes → Bytes := Pool.Sha256.sha256
 
 def fmtSRes {α : Type} (f : α → String) : SRes α → String
   | .ok a => "ok " ++ f a
-  | .noKey => "err nokey"
-  | .exists_ => "err exists"
+  | .noKey => "err refused"
+  | .exists_ => "err refused"
   | .noSidecar => "err nosidecar"
-  | .codec e => "err codec-" ++ e.name
+  | .codec _ => "err refused"
   | .panic => "panic"
 
 def fmtTickets (ts : List Ticket) : String :=
